@@ -30,6 +30,12 @@ package main
 //                                    release analysis forgets everything known so far
 // Anything it cannot classify makes the generator fail (the check then reports a
 // broken obligation).
+//
+// Also emitted: own_facts (the order of uses and Put / Free of a pooled object in the function
+// that holds it, see genOwnFacts) and shared_facts (assignments of the encoders' per-call code to
+// state that a whole logger family shares WITHOUT a pool: the *EncoderConfig that clone() copies
+// by pointer, and the receiver of the methods that run on a logger's long-lived encoder; see
+// genSharedFacts).
 
 import (
 	"bytes"
@@ -912,6 +918,395 @@ func genOwnFacts(repo string, pkgs map[string]*pkgInfo, b *strings.Builder) erro
 	return nil
 }
 
+// ---------------- family-wide state facts ----------------
+// clone() copies the POINTER to the EncoderConfig: a logger's long-lived encoder, the per-call clone
+// EncodeEntry works on and every encoder derived through With / Named / Clone share one configuration.
+// EncodeEntry, Clone, clone, writeContext and addSeparatorIfNecessary moreover run ON the long-lived
+// encoder, whose own fields every later call sees.  Per method of jsonEncoder / consoleEncoder (and the
+// plain functions of the per-call path) this pass lists
+//
+//	cfg writes:  an assignment / ++ / -- whose target is a field of EncoderConfig reached through an
+//	             encoder (x.EncodeLevel = ..., x.EncoderConfig.LineEnding = ..., *x.EncoderConfig = ...),
+//	             unless the base variable is a local VALUE copy (c := *x.EncoderConfig; var c EncoderConfig;
+//	             c := EncoderConfig{...}); the configuration pointer or the address of one of its fields
+//	             handed to a function (arg:...)
+//	recv writes: (entry methods only) an assignment to a field of the receiver (or of an alias of it), a
+//	             call of a receiver method that itself mutates its receiver (fixpoint over the methods
+//	             of both types; buffer methods other than Len / Bytes / String / Cap count), the receiver
+//	             handed to a function
+//
+// The constructors (which fill in defaults in their by-value parameter before anything shares it) are
+// not per-call code and not listed.  Syntactic (go/ast, no types): a field name of EncoderConfig that
+// is not also a field of jsonEncoder identifies the target.
+var c08SharedTypes = []string{"jsonEncoder", "consoleEncoder"}
+var c08SharedFuncs = []string{"putJSONEncoder", "addFields"}
+var c08SharedEntry = map[string]bool{
+	"jsonEncoder.EncodeEntry": true, "jsonEncoder.Clone": true, "jsonEncoder.clone": true,
+	"consoleEncoder.EncodeEntry": true, "consoleEncoder.Clone": true, "consoleEncoder.writeContext": true,
+	"consoleEncoder.addSeparatorIfNecessary": true,
+}
+var c08BufReadOnly = map[string]bool{"Len": true, "Bytes": true, "String": true, "Cap": true}
+
+type sharedFn struct {
+	name string
+	fd   *ast.FuncDecl
+	recv string // receiver variable ("" for a plain function)
+}
+
+func c08RecvTypeName(fd *ast.FuncDecl) string {
+	if fd.Recv == nil || len(fd.Recv.List) != 1 {
+		return ""
+	}
+	t := fd.Recv.List[0].Type
+	if s, ok := t.(*ast.StarExpr); ok {
+		t = s.X
+	}
+	if id, ok := t.(*ast.Ident); ok {
+		return id.Name
+	}
+	return ""
+}
+
+// x.a.b[i] -> ("x", ["a", "b"]); starred: a dereference occurs on the way
+func c08SelChain(e ast.Expr) (base string, sels []string, starred bool, ok bool) {
+	for {
+		switch v := e.(type) {
+		case *ast.ParenExpr:
+			e = v.X
+		case *ast.IndexExpr:
+			e = v.X
+		case *ast.StarExpr:
+			starred = true
+			e = v.X
+		case *ast.SelectorExpr:
+			sels = append([]string{v.Sel.Name}, sels...)
+			e = v.X
+		case *ast.Ident:
+			return v.Name, sels, starred, true
+		default:
+			return "", nil, false, false
+		}
+	}
+}
+
+type sharedScan struct {
+	p        *pkgInfo
+	cfg, own map[string]bool
+	fns      map[string]*sharedFn // "Type.method" / "func"
+	mutating map[string]bool
+}
+
+// locals that hold a VALUE (a copy), not a pointer into shared state
+func c08ValueLocals(fd *ast.FuncDecl) map[string]bool {
+	out := map[string]bool{}
+	isValue := func(e ast.Expr) bool {
+		switch v := e.(type) {
+		case *ast.StarExpr:
+			return true // x := *p : a copy
+		case *ast.CompositeLit:
+			_ = v
+			return true
+		}
+		return false
+	}
+	ast.Inspect(fd.Body, func(n ast.Node) bool {
+		switch v := n.(type) {
+		case *ast.AssignStmt:
+			if v.Tok == token.DEFINE && len(v.Lhs) == len(v.Rhs) {
+				for i, l := range v.Lhs {
+					if id, ok := l.(*ast.Ident); ok && isValue(v.Rhs[i]) {
+						out[id.Name] = true
+					}
+				}
+			}
+		case *ast.DeclStmt:
+			if gd, ok := v.Decl.(*ast.GenDecl); ok {
+				for _, sp := range gd.Specs {
+					if vs, ok := sp.(*ast.ValueSpec); ok && vs.Type != nil {
+						if _, ptr := vs.Type.(*ast.StarExpr); !ptr {
+							for _, n := range vs.Names {
+								out[n.Name] = true
+							}
+						}
+					}
+				}
+			}
+		}
+		return true
+	})
+	return out
+}
+
+// the method a call recv.M(...) / recv.jsonEncoder.M(...) resolves to ("" if M is not a method of the encoders)
+func (sc *sharedScan) resolve(typ, m string) string {
+	if _, ok := sc.fns[typ+"."+m]; ok {
+		return typ + "." + m
+	}
+	if typ == "consoleEncoder" { // embeds *jsonEncoder
+		if _, ok := sc.fns["jsonEncoder."+m]; ok {
+			return "jsonEncoder." + m
+		}
+	}
+	return ""
+}
+
+// what fn does to its receiver (or an alias of it): field assignments, mutating calls, handing it on
+func (sc *sharedScan) recvWrites(fn *sharedFn) []string {
+	if fn.recv == "" {
+		return nil
+	}
+	typ := c08RecvTypeName(fn.fd)
+	alias := map[string]bool{fn.recv: true}
+	isRecv := func(e ast.Expr) bool { // recv, an alias, recv.jsonEncoder
+		base, sels, _, ok := c08SelChain(e)
+		if !ok || !alias[base] {
+			return false
+		}
+		return len(sels) == 0 || (len(sels) == 1 && sels[0] == "jsonEncoder")
+	}
+	var out []string
+	add := func(s string) {
+		for _, o := range out {
+			if o == s {
+				return
+			}
+		}
+		out = append(out, s)
+	}
+	lhs := func(e ast.Expr) {
+		base, sels, _, ok := c08SelChain(e)
+		if ok && alias[base] && len(sels) > 0 {
+			add(strings.Join(sels, "."))
+		}
+	}
+	ast.Inspect(fn.fd.Body, func(n ast.Node) bool {
+		switch v := n.(type) {
+		case *ast.AssignStmt:
+			if len(v.Lhs) == len(v.Rhs) {
+				for i, l := range v.Lhs {
+					if id, ok := l.(*ast.Ident); ok && isRecv(v.Rhs[i]) {
+						alias[id.Name] = true
+					}
+				}
+			}
+			for _, l := range v.Lhs {
+				lhs(l)
+			}
+		case *ast.IncDecStmt:
+			lhs(v.X)
+		case *ast.CallExpr:
+			for _, a := range v.Args {
+				x := a
+				if u, ok := a.(*ast.UnaryExpr); ok && u.Op == token.AND {
+					x = u.X
+				}
+				if isRecv(x) {
+					add("arg:" + sc.p.src(v.Fun))
+				}
+			}
+			if sel, ok := v.Fun.(*ast.SelectorExpr); ok {
+				base, sels, _, ok := c08SelChain(sel.X)
+				if ok && alias[base] {
+					switch {
+					case len(sels) == 0 || (len(sels) == 1 && sels[0] == "jsonEncoder"):
+						t := typ
+						if len(sels) == 1 {
+							t = "jsonEncoder"
+						}
+						if m := sc.resolve(t, sel.Sel.Name); m != "" && sc.mutating[m] {
+							add("call:" + sel.Sel.Name)
+						}
+					case sels[len(sels)-1] == "buf" || sels[len(sels)-1] == "reflectBuf":
+						if !c08BufReadOnly[sel.Sel.Name] {
+							add("call:" + strings.Join(sels, ".") + "." + sel.Sel.Name)
+						}
+					}
+				}
+			}
+		}
+		return true
+	})
+	return out
+}
+
+// assignments of fn that go through the configuration pointer
+func (sc *sharedScan) cfgWrites(fn *sharedFn) []string {
+	vals := c08ValueLocals(fn.fd)
+	var out []string
+	add := func(s string) { out = append(out, s) }
+	lhs := func(e ast.Expr) {
+		base, sels, starred, ok := c08SelChain(e)
+		if !ok || len(sels) == 0 || vals[base] {
+			return
+		}
+		last := sels[len(sels)-1]
+		through := false
+		for _, s := range sels[:len(sels)-1] {
+			if s == "EncoderConfig" {
+				through = true
+			}
+		}
+		switch {
+		case through:
+			add("EncoderConfig." + last)
+		case last == "EncoderConfig" && starred:
+			add("*EncoderConfig")
+		case sc.cfg[last] && !sc.own[last]:
+			add(last)
+		}
+	}
+	ast.Inspect(fn.fd.Body, func(n ast.Node) bool {
+		switch v := n.(type) {
+		case *ast.AssignStmt:
+			for _, l := range v.Lhs {
+				lhs(l)
+			}
+		case *ast.IncDecStmt:
+			lhs(v.X)
+		case *ast.CallExpr:
+			for _, a := range v.Args {
+				x, addr := a, false
+				if u, ok := a.(*ast.UnaryExpr); ok && u.Op == token.AND {
+					x, addr = u.X, true
+				}
+				base, sels, _, ok := c08SelChain(x)
+				if !ok || len(sels) == 0 || vals[base] {
+					continue
+				}
+				last := sels[len(sels)-1]
+				if (last == "EncoderConfig" && !addr) || (addr && sc.cfg[last] && !sc.own[last]) {
+					add("arg:" + last)
+				}
+			}
+		}
+		return true
+	})
+	return out
+}
+
+func genSharedFacts(repo string, pkgs map[string]*pkgInfo, b *strings.Builder) error {
+	p := pkgs["zapcore"]
+	if p == nil {
+		var err error
+		p, err = loadPkg(filepath.Join(repo, "zapcore"))
+		if err != nil {
+			return err
+		}
+		pkgs["zapcore"] = p
+	}
+	cfgF, err := p.structFields("EncoderConfig")
+	if err != nil {
+		return err
+	}
+	ownF, err := p.structFields("jsonEncoder")
+	if err != nil {
+		return err
+	}
+	sc := &sharedScan{p: p, cfg: map[string]bool{}, own: map[string]bool{}, fns: map[string]*sharedFn{}, mutating: map[string]bool{}}
+	for _, f := range cfgF {
+		sc.cfg[f] = true
+	}
+	for _, f := range ownF {
+		sc.own[f] = true
+	}
+	if !sc.own["EncoderConfig"] {
+		return fmt.Errorf("shared facts: jsonEncoder no longer embeds *EncoderConfig (fields %v)", ownF)
+	}
+	isShared := map[string]bool{}
+	for _, t := range c08SharedTypes {
+		isShared[t] = true
+	}
+	plain := map[string]bool{}
+	for _, f := range c08SharedFuncs {
+		plain[f] = true
+	}
+	var names []string
+	for _, f := range p.files {
+		for _, d := range f.Decls {
+			fd, ok := d.(*ast.FuncDecl)
+			if !ok || fd.Body == nil {
+				continue
+			}
+			fn := &sharedFn{fd: fd}
+			if t := c08RecvTypeName(fd); t != "" {
+				if !isShared[t] {
+					continue
+				}
+				fn.name = t + "." + fd.Name.Name
+				if ns := fd.Recv.List[0].Names; len(ns) == 1 {
+					fn.recv = ns[0].Name
+				}
+			} else if plain[fd.Name.Name] {
+				fn.name = fd.Name.Name
+			} else {
+				continue
+			}
+			if _, dup := sc.fns[fn.name]; dup {
+				return fmt.Errorf("shared facts: %s declared twice", fn.name)
+			}
+			sc.fns[fn.name] = fn
+			names = append(names, fn.name)
+		}
+	}
+	for e := range c08SharedEntry {
+		if sc.fns[e] == nil {
+			return fmt.Errorf("shared facts: entry method %s not found", e)
+		}
+	}
+	for _, f := range c08SharedFuncs {
+		if sc.fns[f] == nil {
+			return fmt.Errorf("shared facts: function %s not found", f)
+		}
+	}
+	// which methods mutate their receiver: least fixpoint
+	for changed := true; changed; {
+		changed = false
+		for _, n := range names {
+			if !sc.mutating[n] && len(sc.recvWrites(sc.fns[n])) > 0 {
+				sc.mutating[n] = true
+				changed = true
+			}
+		}
+	}
+	// sorted by name: the order of declarations is not part of the facts
+	for i := range names {
+		for j := i + 1; j < len(names); j++ {
+			if names[j] < names[i] {
+				names[i], names[j] = names[j], names[i]
+			}
+		}
+	}
+	ql := func(l []string) string {
+		var q []string
+		for _, s := range l {
+			q = append(q, `"`+strings.ReplaceAll(s, `"`, "'")+`"`)
+		}
+		return "[" + strings.Join(q, "; ") + "]"
+	}
+	b.WriteString("\n(* per method of the encoders (and plain function of the per-call path): its assignments through the\n")
+	b.WriteString("   *EncoderConfig that a whole logger family shares, and - for the methods that run on a logger's\n")
+	b.WriteString("   long-lived encoder (sf_entry) - to the receiver *)\n")
+	b.WriteString("Definition shared_facts : list sharedfact := [\n")
+	for i, n := range names {
+		fn := sc.fns[n]
+		var rw []string
+		if c08SharedEntry[n] {
+			rw = sc.recvWrites(fn)
+		}
+		entry := "false"
+		if c08SharedEntry[n] {
+			entry = "true"
+		}
+		fmt.Fprintf(b, "  {| sf_fn := \"%s\"; sf_entry := %s; sf_cfg_writes := %s; sf_recv_writes := %s |}", n, entry, ql(sc.cfgWrites(fn)), ql(rw))
+		if i < len(names)-1 {
+			b.WriteString(";")
+		}
+		b.WriteString("\n")
+	}
+	b.WriteString("].\n")
+	return nil
+}
+
 func genPoolFacts(repo, out string) error {
 	var b strings.Builder
 	b.WriteString("(* GENERATED by gen/c08_poolfacts.go from the zap working tree (zapcore/json_encoder.go,\n")
@@ -1003,6 +1398,9 @@ func genPoolFacts(repo, out string) error {
 	}
 	b.WriteString("].\n")
 	if err := genOwnFacts(repo, pkgs, &b); err != nil {
+		return err
+	}
+	if err := genSharedFacts(repo, pkgs, &b); err != nil {
 		return err
 	}
 	path := filepath.Join(out, "PoolFacts.v")
